@@ -580,3 +580,23 @@ V("c09d-jax-divisor-of-wrong-state", "C09", {"rule": "C09d", "contains": "same-d
 V("c09d-preserving-renamed-local", "C09", "silent",
   (JHERM, "        lowered_col = lowered_indices[col_lowered, mode]\n", "        lc = lowered_indices[col_lowered, mode]\n"),
   (JHERM, "            * density_matrix[row, lowered_col]\n", "            * density_matrix[row, lc]\n"))
+
+# --- C06 (claimed after the seeded round: three structural clauses)
+INDICES = "piquasso/_math/indices.py"
+FOCKPY = "piquasso/_math/fock.py"
+V("c06a-array-index-term-shifted", "C06", {"rule": "C06a", "contains": "twin-of-get_index_in_fock_space"},
+  (INDICES, "        sum_ += basis[..., -1 - i]\n        accumulator += arr_comb(sum_ + i, i + 1)\n\n    return accumulator\n\n\n@nb.njit(cache=True)\ndef get_index_in_fock_subspace(",
+   "        sum_ += basis[..., -1 - i]\n        accumulator += arr_comb(sum_ + i + 1, i + 1)\n\n    return accumulator\n\n\n@nb.njit(cache=True)\ndef get_index_in_fock_subspace("))
+V("c06a-dim-array-formula-differs", "C06", {"rule": "C06a", "contains": "elementwise"},
+  (FOCKPY, "        ret[i] = comb(d + cutoff[i] - 1, d)\n", "        ret[i] = comb(d + cutoff[i], d)\n"))
+V("c06b-sector-size-wrong", "C06", {"rule": "C06b", "contains": "sum-of-sector-sizes"},
+  (FOCKPY, "    return comb(d + n - 1, n)\n", "    return comb(d + n, n)\n"))
+V("c06b-cursor-not-advanced", "C06", {"rule": "C06b", "contains": "contiguous"},
+  (FOCKPY, "        current_row += num_rows\n", "        current_row += 1\n"))
+V("c06c-subspace-loop-too-short", "C06", {"rule": "C06c", "contains": "sector-offset"},
+  (INDICES, "    for i in range(len(element) - 1):\n", "    for i in range(len(element) - 2):\n"))
+V("c06b-preserving-equivalent-binomial", "C06", "silent",
+  (FOCKPY, "    return comb(d + n - 1, n)\n", "    return comb(d + n - 1, d - 1)\n"))
+V("c06a-preserving-renamed-accumulator", "C06", "silent",
+  (INDICES, "def get_index_in_fock_space(element):\n    sum_ = 0\n    accumulator = 0\n    for i in range(len(element)):\n        sum_ += element[-1 - i]\n        accumulator += comb(sum_ + i, i + 1)\n\n    return accumulator\n",
+   "def get_index_in_fock_space(element):\n    sum_ = 0\n    accumulator = 0\n    for i in range(len(element)):\n        sum_ += element[-1 - i]\n        accumulator += comb(sum_ + i, i + 1)\n\n    # the position of `element` in the basis\n    return accumulator\n"))
